@@ -272,8 +272,17 @@ pub fn run_c14(out: &mut dyn Write, seed: u64, _thorough: bool, n_hist: usize) {
             let dep_funds = if w.d.native { u } else { 0 };
             tr.step(&mut w, &Op::Eng { sender: t, funds: dep_funds, m: EMsg::Deposit { vamm: ID_VAMM0, amt: u } });
             tr.step(&mut w, &Op::Eng { sender: t, funds: 0, m: EMsg::Withdraw { vamm: ID_VAMM0, amt: u / 10 } });
-            tr.step(&mut w, &Op::Eng { sender: STRANGER, funds: 0, m: EMsg::PayFunding { vamm: ID_VAMM0 } });
-            tr.step(&mut w, &Op::Eng { sender: LIQUIDATOR, funds: 0, m: EMsg::Liq { vamm: ID_VAMM0, trader: TRADERS[1], limit: 0 } });
+            // PayFunding and Liquidate must stay available under pause: when one of them fails while paused it is
+            // retried with the pause lifted (and the pause put back); if the retry goes through, the pause was the reason
+            for op in [Op::Eng { sender: STRANGER, funds: 0, m: EMsg::PayFunding { vamm: ID_VAMM0 } },
+                       Op::Eng { sender: LIQUIDATOR, funds: 0, m: EMsg::Liq { vamm: ID_VAMM0, trader: TRADERS[1], limit: 0 } }] {
+                let ok = tr.step(&mut w, &op);
+                if !ok && paused {
+                    tr.step(&mut w, &Op::Eng { sender: ID_OWNER, funds: 0, m: EMsg::SetPause(false) });
+                    tr.step(&mut w, &op);
+                    tr.step(&mut w, &Op::Eng { sender: ID_OWNER, funds: 0, m: EMsg::SetPause(true) });
+                }
+            }
             tr.step(&mut w, &Op::Eng { sender: t, funds: 0, m: EMsg::Close { vamm: ID_VAMM0, limit: 0 } });
             tr.end();
         }
